@@ -93,6 +93,8 @@ func genCase(r row, pos, variant int) *rapid.Generator[caseSpec] {
 		cs.EndLocal = rapid.Bool().Draw(t, "end_local")
 		cs.CallDelay = rapid.SampledFrom([]int{0, 0, 100, 3000}).Draw(t, "call_delay_us")
 		cs.AfterErr = rapid.IntRange(0, 3).Draw(t, "after_err") == 0
+		cs.DoubleClose = rapid.IntRange(0, 3).Draw(t, "double_close") == 0
+		cs.NoErrReader = rapid.IntRange(0, 4).Draw(t, "no_err_reader") == 0
 		if r.fault == fGarbage {
 			cs.Noise = rapid.SliceOfN(rapid.Byte(), 1, 40).Draw(t, "noise")
 		}
@@ -201,12 +203,12 @@ func (st *runState) evalCase(cs caseSpec, fail failer) outcome {
 	}
 	if o.NeededClose {
 		rec.Class("calls-pending-until-local-close")
-		if o.Key == "" {
-			// not judged (the statement does not say who has to notice the disconnect
-			// first), but measured
-			rec.Class("calls-returned-only-after-local-close")
-			fmt.Printf("NOTE calls returned only after the local Close(): %s calls=%+v trace=%v\n", cs, o.Calls, o.Trace)
-		}
+	}
+	if cs.DoubleClose {
+		rec.Class("close:concurrent-double-close")
+	}
+	if cs.NoErrReader {
+		rec.Class("errorchan:not-read-before-close")
 	}
 	if o.CallPendingAtEnd {
 		rec.Class("call-blocked-when-connection-ended")
